@@ -36,7 +36,8 @@ if not NATIVE:
         @staticmethod
         def loads(s, *a, **k):
             if isinstance(s, SStr):
-                raise Inconclusive("symbolic text reached json.loads (the decoder is outside the encoding)")
+                # the decoder is outside the encoding: the path goes on with one sampled value (a pass then decides nothing)
+                s = core.cur().sample_str(s, "text handed to json.loads")
             return _real_json_loads(s, *a, **k)
     C.json = _JsonGuard()
 
